@@ -29,7 +29,7 @@ func (forRangeStmt *ForRangeStmt) Evaluate(dc *context.DataContext, Vars map[str
 	iterer, err := iter.NewInter(value)
 	if err != nil {
 		return reflect.ValueOf(nil), errors.New(fmt.Sprintf("line %d, column %d, code: %s, %+v",
-			forRangeStmt.LineNum, forRangeStmt.Column, forRangeStmt.Code, e)), false
+			forRangeStmt.LineNum, forRangeStmt.Column, forRangeStmt.Code, err)), false
 	}
 	for iterer.Next() {
 		key := iterer.Key()
